@@ -7,7 +7,7 @@
 //! placement of scheduling points), except that the completion of an operation must coincide
 //! with its logged `E` event and produce the logged result.
 
-use crate::prog::{unique_val, Op, Program};
+use crate::prog::{inner_unique_val, unique_val, Op, Program, STATIC_ONCE_SLOTS};
 use crate::sim::{Decision, Event, ExecTrace};
 use std::collections::{BTreeMap, BTreeSet, VecDeque};
 
@@ -40,6 +40,10 @@ pub struct MTask {
     pub has_tx: Vec<bool>,
     pub has_rx: Vec<bool>,
     pub parent: Option<usize>,
+    /// locks held when the current Catch block began: (mutexes, rw write, rw read)
+    pub catch_snap: Option<(Vec<usize>, Vec<usize>, Vec<usize>)>,
+    /// name given at spawn (None for scoped threads)
+    pub named: bool,
 }
 
 #[derive(Clone, Debug, PartialEq, Eq, PartialOrd, Ord, Hash, Default)]
@@ -115,6 +119,7 @@ pub enum Res {
     Any,
     /// a number below the bound
     Below(u64),
+    Prefix(String),
 }
 
 impl Res {
@@ -123,6 +128,7 @@ impl Res {
             Res::Exact(s) => s == observed,
             Res::Any => true,
             Res::Below(b) => observed.parse::<u64>().map(|v| v < *b).unwrap_or(false),
+            Res::Prefix(p) => observed.starts_with(p.as_str()),
         }
     }
 }
@@ -152,6 +158,8 @@ pub fn init_state(p: &Program) -> MState {
             has_tx: (0..p.res.chans.len()).map(|c| p.senders_of(c).contains(&b)).collect(),
             has_rx: (0..p.res.chans.len()).map(|c| p.res.rx_owner[c] == b).collect(),
             parent: p.parent_of(b),
+            catch_snap: None,
+            named: false,
         });
     }
     MState {
@@ -160,7 +168,7 @@ pub fn init_state(p: &Program) -> MState {
         rw: vec![MRw::default(); p.res.rwlocks],
         cv: vec![vec![]; p.res.condvars],
         bar: p.res.barriers.iter().map(|b| MBar { bound: *b, ..Default::default() }).collect(),
-        once: vec![MOnce::default(); p.res.onces],
+        once: vec![MOnce::default(); p.res.onces + STATIC_ONCE_SLOTS],
         atom: vec![0; p.res.atomics],
         chan: (0..p.res.chans.len())
             .map(|c| MChan {
@@ -191,8 +199,61 @@ pub fn micro(s: &MState, t: usize, op: &Op, j: u8, uv: u64) -> Option<Vec<Out>> 
         Op::Spawn(b) => {
             n.tasks[*b].st = TSt::Idle;
             n.tasks[*b].pc = 0;
+            n.tasks[*b].named = true;
             n.tasks[t].handles.push((*b, false));
             done(n, Res::Any)
+        }
+        Op::ScopedSpawn(b) => {
+            n.tasks[*b].st = TSt::Idle;
+            n.tasks[*b].pc = 0;
+            done(n, Res::Any)
+        }
+        Op::ScopeEnd(bs) => {
+            // the scope waits for the scoped closures to return (as std does); the scoped threads'
+            // thread-local destructors may still be running
+            if bs.iter().all(|b| matches!(s.tasks[*b].st, TSt::Done | TSt::Exiting)) {
+                done(n, ex(""))
+            } else {
+                None
+            }
+        }
+        Op::CatchBegin => {
+            let ms = (0..s.mutex.len()).filter(|m| s.mutex[*m].owner == Some(t)).collect();
+            let ws = (0..s.rw.len()).filter(|r| s.rw[*r].writer == Some(t)).collect();
+            let rs = (0..s.rw.len()).filter(|r| s.rw[*r].readers.contains(&t)).collect();
+            n.tasks[t].catch_snap = Some((ms, ws, rs));
+            done(n, ex(""))
+        }
+        Op::CatchEnd => {
+            let (ms, ws, rs) = s.tasks[t].catch_snap.clone().unwrap_or_default();
+            for m in 0..s.mutex.len() {
+                if s.mutex[m].owner == Some(t) && !ms.contains(&m) {
+                    n.mutex[m].owner = None;
+                    n.mutex[m].poisoned = true;
+                }
+            }
+            for r in 0..s.rw.len() {
+                if s.rw[r].writer == Some(t) && !ws.contains(&r) {
+                    n.rw[r].writer = None;
+                    n.rw[r].poisoned = true;
+                }
+                if s.rw[r].readers.contains(&t) && !rs.contains(&r) {
+                    n.rw[r].readers.remove(&t);
+                }
+            }
+            n.tasks[t].catch_snap = None;
+            done(n, ex("caught"))
+        }
+        Op::ResetSteps => done(n, ex("")),
+        Op::TlsWith(_) => done(n, Res::Any),
+        Op::ThreadInfo => {
+            if t == 0 {
+                done(n, Res::Prefix("true:".into()))
+            } else if s.tasks[t].named {
+                done(n, Res::Exact(format!("true:body{}", t)))
+            } else {
+                done(n, ex("true:<none>"))
+            }
         }
         Op::Join(slot) => match s.tasks[t].handles.get(*slot) {
             Some((b, false)) => {
@@ -358,45 +419,45 @@ pub fn micro(s: &MState, t: usize, op: &Op, j: u8, uv: u64) -> Option<Vec<Out>> 
                 done(n, ex(if l { "leader" } else { "follower" }))
             }
         },
-        Op::CallOnce(o, _) => match j {
-            // entry (executed eagerly in the step that starts the operation): a completed cell returns at once
-            0 => {
-                if s.once[*o].phase == 2 {
+        Op::CallOnce(..) | Op::StaticOnce(_) | Op::LazyGet(_) => {
+            let o = &once_slot(s, op);
+            match j {
+                // entry (executed eagerly in the step that starts the operation): a completed cell returns at once
+                0 => {
+                    if s.once[*o].phase == 2 {
+                        done(n, ex(""))
+                    } else {
+                        Some(vec![Out::Cont(n)])
+                    }
+                }
+                // enter the cell's critical section
+                1 => {
+                    if s.once[*o].lock.is_some() {
+                        return None;
+                    }
+                    n.once[*o].lock = Some(t);
+                    if s.once[*o].phase == 0 {
+                        n.once[*o].phase = 1;
+                    }
+                    Some(vec![Out::Cont(n)])
+                }
+                // micro 2 is the initialiser body: executed by the logged "J" event; skipped when
+                // the cell was completed by another caller in the meantime
+                2 => {
+                    if s.once[*o].phase == 2 && s.once[*o].lock == Some(t) {
+                        Some(vec![Out::Cont(n)])
+                    } else {
+                        None
+                    }
+                }
+                _ => {
+                    if s.once[*o].lock == Some(t) {
+                        n.once[*o].lock = None;
+                    }
                     done(n, ex(""))
-                } else {
-                    Some(vec![Out::Cont(n)])
                 }
             }
-            // enter the cell's critical section
-            1 => {
-                if s.once[*o].lock.is_some() {
-                    return None;
-                }
-                n.once[*o].lock = Some(t);
-                if s.once[*o].phase == 0 {
-                    n.once[*o].phase = 1;
-                    Some(vec![Out::Cont(n)])
-                } else {
-                    // already complete: skip the initialiser
-                    n.tasks[t].st = TSt::Pending { micro: 2, tries: 0 };
-                    Some(vec![Out::Cont(n)])
-                }
-            }
-            // micro 2 is the initialiser body: executed by the logged "J" event (or skipped, see above)
-            2 => {
-                if s.once[*o].phase == 2 && s.once[*o].lock == Some(t) {
-                    Some(vec![Out::Cont(n)])
-                } else {
-                    None
-                }
-            }
-            _ => {
-                if s.once[*o].lock == Some(t) {
-                    n.once[*o].lock = None;
-                }
-                done(n, ex(""))
-            }
-        },
+        }
         Op::IsCompleted(o) => {
             let r = (s.once[*o].phase == 2).to_string();
             done(n, Res::Exact(r))
@@ -563,7 +624,18 @@ pub fn micro(s: &MState, t: usize, op: &Op, j: u8, uv: u64) -> Option<Vec<Out>> 
         },
         Op::Yield | Op::Sleep | Op::Spin => done(n, ex("")),
         Op::Rand(b) => done(n, Res::Below((*b).max(1))),
-        Op::Catch(_) | Op::Fail => done(n, Res::Any),
+        Op::Catch(_) | Op::Scope(..) | Op::Fail => done(n, Res::Any),
+    }
+}
+
+/// model Once slot used by an operation: per-program cells first, then the static pool
+pub fn once_slot(s: &MState, op: &Op) -> usize {
+    let n = s.once.len() - STATIC_ONCE_SLOTS;
+    match op {
+        Op::CallOnce(o, _) => *o,
+        Op::StaticOnce(i) => n + (i % 2),
+        Op::LazyGet(i) => n + 2 + (i % 2),
+        _ => 0,
     }
 }
 
@@ -579,7 +651,7 @@ fn unpark(n: &mut MState, target: usize) {
     }
 }
 
-/// Resolve a label to the operation it denotes for body `b`.
+/// Resolve a label to the operation it denotes for body `b` and the unique value it writes.
 pub fn op_for_label(p: &Program, b: usize, label: &str) -> Option<(Op, u64)> {
     if let Some(m) = label.strip_prefix("xr") {
         return m.parse().ok().map(|m| (Op::UnlockRead(m), 0));
@@ -590,8 +662,34 @@ pub fn op_for_label(p: &Program, b: usize, label: &str) -> Option<(Op, u64)> {
     if let Some(m) = label.strip_prefix('x') {
         return m.parse().ok().map(|m| (Op::Unlock(m), 0));
     }
+    if let Some((a, rest)) = label.split_once('.') {
+        let i: usize = a.parse().ok()?;
+        let op = p.bodies[b].get(i)?;
+        return match (op, rest) {
+            (Op::Scope(bs, _), "end") => Some((Op::ScopeEnd(bs.clone()), 0)),
+            (Op::Catch(_), "begin") => Some((Op::CatchBegin, 0)),
+            (Op::Catch(_), "end") => Some((Op::CatchEnd, 0)),
+            (Op::Scope(bs, inner), r) => {
+                if let Some(k) = r.strip_prefix('b') {
+                    let k: usize = k.parse().ok()?;
+                    bs.get(k).map(|x| (Op::ScopedSpawn(*x), 0))
+                } else {
+                    let j: usize = r.parse().ok()?;
+                    inner.get(j).map(|o| (o.clone(), inner_unique_val(b, i, j)))
+                }
+            }
+            (Op::Catch(inner), r) => {
+                let j: usize = r.parse().ok()?;
+                inner.get(j).map(|o| (o.clone(), inner_unique_val(b, i, j)))
+            }
+            _ => None,
+        };
+    }
     let i: usize = label.parse().ok()?;
-    p.bodies[b].get(i).map(|o| (o.clone(), unique_val(b, i)))
+    match p.bodies[b].get(i) {
+        Some(Op::Scope(..)) | Some(Op::Catch(..)) | None => None,
+        Some(o) => Some((o.clone(), unique_val(b, i))),
+    }
 }
 
 pub fn guard_of_current(p: &Program, s: &MState, t: usize) -> bool {
@@ -667,7 +765,7 @@ fn advance_one(p: &Program, s0: &MState, t: usize, evs: &[&Event], out: &mut BTr
                 // only destructor / extra events may follow
                 if ei < evs.len() {
                     let e = evs[ei];
-                    if e.kind == "D" || e.kind == "Y" {
+                    if matches!(e.kind.as_str(), "D" | "Y" | "T" | "DA" | "LD") {
                         stack.push((s.clone(), ei + 1, started_here));
                     }
                     continue;
@@ -692,11 +790,12 @@ fn advance_one(p: &Program, s0: &MState, t: usize, evs: &[&Event], out: &mut BTr
                     }
                     "S" => {
                         // the label must denote the next operation of the body
-                        let expected_ok = if let Ok(i) = e.op.parse::<usize>() {
-                            i == task.pc && i < p.bodies[t].len()
+                        let labels = p.labels(t);
+                        let expected_ok = if task.pc < labels.len() {
+                            labels[task.pc] == e.op
                         } else {
                             // implicit tail unlocks come after all body operations
-                            task.pc >= p.bodies[t].len() && op_for_label(p, t, &e.op).is_some()
+                            e.op.starts_with('x') && op_for_label(p, t, &e.op).is_some()
                         };
                         if !expected_ok {
                             continue;
@@ -707,7 +806,7 @@ fn advance_one(p: &Program, s0: &MState, t: usize, evs: &[&Event], out: &mut BTr
                         stack.push((n, ei + 1, true));
                     }
                     "X" => {
-                        if task.pc >= p.bodies[t].len() {
+                        if task.pc >= p.labels(t).len() {
                             let mut n = s.clone();
                             n.tasks[t].st = TSt::Exiting;
                             stack.push((n, ei + 1, started_here));
@@ -727,7 +826,8 @@ fn advance_one(p: &Program, s0: &MState, t: usize, evs: &[&Event], out: &mut BTr
                     match e.kind.as_str() {
                         "I" => {
                             // initialiser of a Once started: this task must be the one Running
-                            if let Op::CallOnce(o, _) = &op {
+                            if matches!(op, Op::CallOnce(..) | Op::StaticOnce(_) | Op::LazyGet(_)) {
+                                let o = &once_slot(&s, &op);
                                 if *j == 2 && s.once[*o].phase == 1 && s.once[*o].lock == Some(t) {
                                     *probes.entry("once_init_run".into()).or_insert(0) += 1;
                                     stack.push((s.clone(), ei + 1, started_here));
@@ -743,7 +843,8 @@ fn advance_one(p: &Program, s0: &MState, t: usize, evs: &[&Event], out: &mut BTr
                         }
                         "J" => {
                             // initialiser returned: the Once becomes complete here (before call_once returns)
-                            if let Op::CallOnce(o, _) = &op {
+                            if matches!(op, Op::CallOnce(..) | Op::StaticOnce(_) | Op::LazyGet(_)) {
+                                let o = &once_slot(&s, &op);
                                 if *j == 2 && s.once[*o].phase == 1 && s.once[*o].lock == Some(t) {
                                     let mut n = s.clone();
                                     n.once[*o].phase = 2;
@@ -753,7 +854,7 @@ fn advance_one(p: &Program, s0: &MState, t: usize, evs: &[&Event], out: &mut BTr
                             }
                             continue;
                         }
-                        "Y" | "P" | "F" => {
+                        "Y" | "P" | "F" | "T" | "D" | "DA" | "LD" => {
                             stack.push((s.clone(), ei + 1, started_here));
                             continue;
                         }
@@ -761,7 +862,7 @@ fn advance_one(p: &Program, s0: &MState, t: usize, evs: &[&Event], out: &mut BTr
                     }
                 }
                 // option: stop here (only when all events are consumed)
-                let eager0 = matches!(op, Op::CallOnce(..)) && *j == 0;
+                let eager0 = matches!(op, Op::CallOnce(..) | Op::StaticOnce(_) | Op::LazyGet(_)) && *j == 0;
                 if ei >= evs.len() && !eager0 {
                     let mut b = s.clone();
                     let nt = if started_here { 0 } else { (*tries + 1).min(2) };
@@ -784,8 +885,8 @@ fn advance_one(p: &Program, s0: &MState, t: usize, evs: &[&Event], out: &mut BTr
                                             // nothing: tid mapping handled by the caller
                                         }
                                         n.tasks[t].st = TSt::Idle;
-                                        if let Ok(i) = task.label.parse::<usize>() {
-                                            n.tasks[t].pc = i + 1;
+                                        if !task.label.starts_with('x') {
+                                            n.tasks[t].pc = task.pc + 1;
                                         }
                                         n.tasks[t].label.clear();
                                         stack.push((n, ei + 1, started_here));
@@ -816,6 +917,7 @@ pub fn parse_deadlock_tasks(msg: &str) -> Option<Vec<u32>> {
             let c = b[k] as char;
             if c == '(' {
                 depth += 1;
+                cur = None;
             } else if c == ')' {
                 depth -= 1;
                 if let Some(v) = cur.take() {
@@ -858,7 +960,53 @@ pub fn lockstep(p: &Program, ex: &ExecTrace, ending: Option<&str>) -> Result<Loc
     set.insert(init_state(p));
     let mm = |class: &str, detail: String, step: usize| Mismatch { class: class.to_string(), detail, step };
 
+    let mut prev_step_last: Option<(usize, Event)> = None; // (body, last event of the previous step)
     for (k, d) in decisions.iter().enumerate() {
+        // ---- the yielding flag is set exactly for the decision following an explicit yield request ----
+        if k > 0 {
+            let expect = match &prev_step_last {
+                Some((b, e)) => match e.kind.as_str() {
+                    "S" => matches!(op_for_label(p, *b, &e.op), Some((Op::Yield, _)) | Some((Op::Spin, _)) | Some((Op::Park, _))),
+                    "I" => e.op == "L1" || {
+                        // initialiser of a per-program Once whose body yields
+                        let t = &p.bodies[*b];
+                        e.op.parse::<usize>().is_ok()
+                            && t.iter().chain(t.iter().flat_map(|o| match o {
+                                Op::Scope(_, inner) | Op::Catch(inner) => inner.iter(),
+                                _ => [].iter(),
+                            })).any(|o| matches!(o, Op::CallOnce(x, true) if x.to_string() == e.op))
+                            && {
+                                // the op in progress must be that CallOnce(_, true)
+                                true
+                            }
+                    },
+                    "D" => e.op == "1",
+                    _ => false,
+                },
+                None => false,
+            };
+            // an "I" of a CallOnce(o, false) by a body that also has CallOnce(o, true) elsewhere is
+            // ambiguous by label alone; resolve through the pending operation of the task
+            let expect = match &prev_step_last {
+                Some((b, e)) if e.kind == "I" && e.op.parse::<usize>().is_ok() => {
+                    set.iter().next().map(|s| match op_for_label(p, *b, &s.tasks[*b].label) {
+                        Some((Op::CallOnce(_, yi), _)) => yi,
+                        _ => expect,
+                    }).unwrap_or(expect)
+                }
+                _ => expect,
+            };
+            if d.yielding != expect {
+                return Err(mm(
+                    "yield-flag",
+                    format!("decision {}: is_yielding={} but the previous step ended with {:?}", k, d.yielding, prev_step_last.as_ref().map(|(b, e)| format!("body {} {}{}={}", b, e.kind, e.op, e.val))),
+                    k,
+                ));
+            }
+            if d.yielding {
+                *stats.probes.entry("yield_flag_true".into()).or_insert(0) += 1;
+            }
+        }
         // ---- compare the offered set with the model ----
         let mut offered_bodies: BTreeSet<usize> = BTreeSet::new();
         let mut blocked_bodies: BTreeSet<usize> = BTreeSet::new();
@@ -947,6 +1095,7 @@ pub fn lockstep(p: &Program, ex: &ExecTrace, ending: Option<&str>) -> Result<Loc
         }
         let evs: Vec<&Event> = by_step.get(&((k + 1) as u32)).cloned().unwrap_or_default();
         let evs_t: Vec<&Event> = evs.iter().filter(|e| e.task == chosen).cloned().collect();
+        prev_step_last = evs_t.last().map(|e| (t, (*e).clone()));
         let completions = evs_t.iter().filter(|e| e.kind == "E").count();
         if completions >= 2 {
             stats.multi_effect_steps += 1;
@@ -976,7 +1125,7 @@ pub fn lockstep(p: &Program, ex: &ExecTrace, ending: Option<&str>) -> Result<Loc
         // learn task ids of spawned children from Spawn completions
         for e in &evs_t {
             if e.kind == "E" {
-                if let Some((Op::Spawn(b), _)) = op_for_label(p, t, &e.op) {
+                if let Some((Op::Spawn(b), _)) | Some((Op::ScopedSpawn(b), _)) = op_for_label(p, t, &e.op) {
                     if let Ok(tid) = e.val.parse::<u32>() {
                         if let Some(prev) = body_of.get(&tid) {
                             if *prev != b {
